@@ -329,7 +329,13 @@ func c16TickerRegistrations(tk *retransmission.Ticker) uint64 {
 	mu := (*sync.Mutex)(unsafe.Pointer(v.FieldByName("handlersMutex").UnsafeAddr()))
 	mu.Lock()
 	defer mu.Unlock()
-	return v.FieldByName("nextHandlerId").Uint()
+	// the registry's own registration counter if it has one; otherwise the
+	// size of the registry (a lower bound once ticks removed ended handlers:
+	// the callers only wait a bounded time for it)
+	if f := v.FieldByName("nextHandlerId"); f.IsValid() {
+		return f.Uint()
+	}
+	return uint64(v.FieldByName("handlers").Len())
 }
 
 type c16Outcome struct {
